@@ -1,7 +1,7 @@
 (* C07: Honest participants follow protocol discipline in everything they emit.
    Model: Gpbft/Instance.v (Layer N), tied to gpbft.Participant by the event-trace correspondence (harness c07.go). *)
-From Coq Require Import ZArith List Bool.
-From F3 Require Import GoInt QuorumGen Instance InstanceRun InstanceOrder InstanceVotes InstanceConverge InstanceDecide InstanceQuorum QuorumProofs.
+From Coq Require Import ZArith List Bool Lia.
+From F3 Require Import GoInt QuorumGen Instance InstanceRun InstanceOrder InstanceVotes InstanceConverge InstanceDecide InstanceQuorum InstanceNoPanic QuorumProofs.
 Import ListNotations.
 Open Scope Z_scope.
 
@@ -121,6 +121,29 @@ Theorem C07_try_prepare_no_panic : forall c, committee_ok c -> forall i,
   i_err (try_prepare c i) <> Some PBeginCommit /\ i_err (try_prepare c i) <> Some PFindQuorum.
 Proof. intros c (H1 & H2 & H3) i. apply try_prepare_no_panic; assumption. Qed.
 Print Assumptions C07_try_prepare_no_panic.
+
+(* run level: over EVERY event sequence (arbitrary deliveries, alarms, interleavings) of an instance whose committee is a
+   real power table (non-negative scaled powers, ScaledTotal their sum, below 2^62), the instance never reports
+   "multiple chains with strong quorum", "strong quorum exists but could not be found", a tryDecide / beginDecide without
+   quorum, or a beginCommit without justification *)
+Theorem C07_quorum_panics_unreachable : forall c input now evs e,
+  committee_wf c -> Forall wfe evs ->
+  i_err (snd (run_hist c (started c input now) evs)) = Some e ->
+  e <> PMultiQuorum /\ e <> PFindQuorum /\ e <> PTryDecide /\ e <> PBeginDecide /\ e <> PBeginCommit.
+Proof.
+  intros c input now evs e Hwf Hw He. pose proof (quorum_panics_unreachable_wf c input now evs e Hwf Hw He) as H.
+  repeat split; intros ->; apply H; exact I.
+Qed.
+Print Assumptions C07_quorum_panics_unreachable.
+Theorem C07_committee_wf_ok : forall c, committee_wf c -> committee_ok c.
+Proof. intros c H. apply committee_wf_ok. exact H. Qed.
+Print Assumptions C07_committee_wf_ok.
+(* the correspondence check evaluates cfg_wfb on the committee of every trace the real participant ran with *)
+Theorem C07_checked_committee_wf : forall c, cfg_wfb c = true -> committee_wf c.
+Proof. exact cfg_wfb_spec. Qed.
+Print Assumptions C07_checked_committee_wf.
+Example C07_committee_wf_nonvacuous : committee_wf (mkCfg [21845; 21845; 21844] 65534 5 3 2 [1; 2] [1]).
+Proof. unfold committee_wf, two62; cbn. repeat split; try lia. repeat constructor; lia. Qed.
 
 (* non-vacuity: a concrete run (3 members, subject 0 with input [1;2;3]) passes QUALITY, PREPARE, COMMIT and decides *)
 Definition ex_cfg := mkCfg [10; 30; 30] 70 4 2 2000 [2000; 3000; 4500] [700; 900; 1100].
